@@ -272,4 +272,40 @@ example : SelShape [Ex.idt "a"] := ⟨by decide, by decide, by decide, by decide
 example : nest [] ([Ex.idt "color", Ex.colon, Ex.idt "red", Ex.semi] ++ [Ex.idt "top", Ex.colon, Ex.fn "f("])
     = some [K.paren] := by decide
 
+/-! ## known finding `C04-escaped-delimiter-ident`
+
+All theorems above classify brackets the way `_tokensupto2` does: by token VALUE.  The tokenizer unescapes
+identifiers, so `\7b ` is an IDENT token with value `{`, which the code (and therefore `Tok.br`, `nest`,
+`Balanced`) counts as an opening brace although in CSS it is a plain identifier.  Full statement wanted
+by the property (brackets = CHAR tokens and FUNCTION, `Tok.cssBr`):
+
+    theorem upto_balanced_css : BalancedCss g → … → upto m none (g ++ e :: rest) = (g ++ [e], rest)
+
+It is FALSE for the code; it holds under the guard that no non-CHAR token has a bracket as its value, because
+then the two classifications coincide: -/
+
+/-- `_partial`: under the guard `plainTok` the value-based classification is the CSS one, so every theorem
+of this file reads as a statement about CSS-level balance. -/
+theorem bracket_classification_partial (t : Tok) (h : plainTok t = true) : t.br = t.cssBr :=
+  br_eq_cssBr t h
+
+/-- the witness `a{\7b :1;color:red} b{c:d}`: the IDENT `{` violates the guard and is counted as a brace … -/
+example : plainTok ⟨.ident, vLBrace, 0⟩ = false ∧ (⟨.ident, vLBrace, 0⟩ : Tok).br = .op .brace
+    ∧ (⟨.ident, vLBrace, 0⟩ : Tok).cssBr = .no := by decide
+
+/-- … so the statement that starts at `a` swallows the whole rest of the sheet, the rule `b{c:d}` included
+(negation of containment at the witness, in the model; the implementation does the same, see known/C04.json) -/
+example : (upto .default (some (Ex.idt "a"))
+    [Ex.lbrace, ⟨.ident, vLBrace, 0⟩, Ex.colon, Ex.num "1", Ex.semi, Ex.idt "color", Ex.colon, Ex.idt "red",
+     Ex.rbrace, Ex.sp, Ex.idt "b", Ex.lbrace, Ex.idt "c", Ex.colon, Ex.idt "d", Ex.rbrace, Ex.eof]).2 = [] := by
+  decide
+
+/-- with a harmless identifier in its place the statement ends at its `}` and `b{c:d}` is left for the next
+production -/
+example : (upto .default (some (Ex.idt "a"))
+    [Ex.lbrace, Ex.idt "x", Ex.colon, Ex.num "1", Ex.semi, Ex.idt "color", Ex.colon, Ex.idt "red",
+     Ex.rbrace, Ex.sp, Ex.idt "b", Ex.lbrace, Ex.idt "c", Ex.colon, Ex.idt "d", Ex.rbrace, Ex.eof]).2
+    = [Ex.sp, Ex.idt "b", Ex.lbrace, Ex.idt "c", Ex.colon, Ex.idt "d", Ex.rbrace, Ex.eof] := by
+  decide
+
 end CssVerif.Props.C04
